@@ -285,3 +285,344 @@ Section Laws.
       eapply field_eqb_trans; eauto.
   Qed.
 End Laws.
+
+(* ================================================================== sizes, getattr *)
+Lemma size_pos v : 1 <= size v.
+Proof. destruct v; simpl; lia. Qed.
+
+Lemma size_in_sum l x : In x l -> size x <= fold_right (fun x acc => size x + acc) 0 l.
+Proof. induction l; simpl; intros []; subst; try lia. specialize (IHl H). lia. Qed.
+
+Lemma size_in_list l x : In x l -> size x < size (VList l).
+Proof. intro I. apply size_in_sum in I. simpl. lia. Qed.
+
+Lemma size_in_tuple l x : In x l -> size x < size (VTuple l).
+Proof. intro I. apply size_in_sum in I. simpl. lia. Qed.
+
+Lemma size_in_dict d k v : In (k, v) d -> size k + size v < size (VDict d).
+Proof.
+  simpl. induction d as [|[k' v'] t IH]; simpl; intros []; try lia.
+  - inversion H; subst. lia.
+  - specialize (IH H). lia.
+Qed.
+
+Lemma size_in_inst c d x v : In (x, v) d -> size v + 2 < size (VInst c d).
+Proof.
+  simpl. induction d as [|[x' v'] t IH]; simpl; intros []; try lia.
+  - inversion H; subst. lia.
+  - specialize (IH H). lia.
+Qed.
+
+Lemma lookup_in x d v : lookup x d = Some v -> In (x, v) d.
+Proof.
+  induction d as [|[y w] t IH]; simpl; try discriminate.
+  destruct (Nat.eqb_spec x y); intro H.
+  - inversion H; subst. left; auto.
+  - right; auto.
+Qed.
+
+Lemma find_attr_in x l a : find_attr x l = Some a -> In a l /\ a_name a = x.
+Proof.
+  induction l as [|b t IH]; simpl; try discriminate.
+  destruct (Nat.eqb_spec x (a_name b)); intro H.
+  - inversion H; subst. auto.
+  - destruct (IH H); auto.
+Qed.
+
+Lemma is_key_wf v : is_key v = true -> wf v.
+Proof. destruct v; simpl; try discriminate; constructor. Qed.
+
+Lemma is_key_size v : is_key v = true -> size v = 1.
+Proof. destruct v; simpl; try discriminate; reflexivity. Qed.
+
+Section GetAttr.
+  Variable ct : ctable.
+  Hypothesis CT : wf_ct ct.
+
+  Lemma cls_attr_cases c x :
+    cls_attr ct c x = VMissing \/ (exists f, cls_attr ct c x = VMeth f true) \/
+    is_key (cls_attr ct c x) = true.
+  Proof.
+    unfold cls_attr. destruct (find_attr x (c_attrs (ct c))) as [a|] eqn:F; auto.
+    destruct (a_cls a) as [[f|v]|] eqn:E; auto.
+    - right; left; eauto.
+    - right; right. apply find_attr_in in F as [I _].
+      destruct (CT c) as [_ [_ [H _]]]. eapply H; eauto.
+  Qed.
+
+  Lemma cls_attr_size c x : size (cls_attr ct c x) = 1.
+  Proof.
+    destruct (cls_attr_cases c x) as [H|[[f H]|H]]; try rewrite H; auto.
+    apply is_key_size; auto.
+  Qed.
+
+  Lemma cls_attr_wf c x : wf_field (cls_attr ct c x).
+  Proof.
+    destruct (cls_attr_cases c x) as [H|[[f H]|H]]; unfold wf_field.
+    - auto.
+    - rewrite H; auto.
+    - right; right; apply is_key_wf; auto.
+  Qed.
+
+  Lemma getattr_size c d x : size (getattr ct c d x) < size (VInst c d).
+  Proof.
+    unfold getattr. destruct (lookup x d) eqn:L.
+    - apply lookup_in in L. apply (size_in_inst c) in L. lia.
+    - rewrite cls_attr_size. simpl. lia.
+  Qed.
+
+  Lemma getattr_wf c d x : wf (VInst c d) -> wf_field (getattr ct c d x).
+  Proof.
+    intro W. unfold getattr. destruct (lookup x d) eqn:L.
+    - apply lookup_in in L. inversion W as [| | | | | | | | c0 d0 H1]; subst. rewrite Forall_forall in H1.
+      specialize (H1 _ L). simpl in H1. unfold wf_field. tauto.
+    - apply cls_attr_wf.
+  Qed.
+
+  (* -------------------------------------------------------------- reflexivity *)
+  Lemma spec_refl n : forall a, wf_field a -> size a + size a < n -> spec_eqb ct n a a = true.
+  Proof.
+    induction n as [|n IH]; intros a W S; [lia|].
+    destruct W as [W|[W|W]].
+    - subst; reflexivity.
+    - destruct a; try discriminate. simpl. rewrite Z.eqb_refl. destruct self; reflexivity.
+    - destruct a; inversion W; subst; simpl; try reflexivity; try apply Z.eqb_refl.
+      + apply forall2b_refl. intros x I. apply IH.
+        * right; right. rewrite Forall_forall in H0; auto.
+        * apply size_in_tuple in I. lia.
+      + apply forall2b_refl. intros x I. apply IH.
+        * right; right. rewrite Forall_forall in H0; auto.
+        * apply size_in_list in I. lia.
+      + assert (KO : keys_ok kvs).
+        { split; auto. rewrite Forall_forall in *. intros kv I. apply H0; auto. }
+        assert (R : dict_le (spec_eqb ct n) kvs kvs = true).
+        { apply dict_le_refl; auto. intros k v I. apply IH.
+          - right; right. rewrite Forall_forall in H0. apply (H0 (k, v)); auto.
+          - apply size_in_dict in I. lia. }
+        rewrite R. reflexivity.
+      + rewrite Nat.eqb_refl. simpl. apply forallb_forall. intros a _.
+        destruct (a_compare a); simpl; auto.
+        assert (Wg := getattr_wf c d (a_name a) W).
+        assert (Sg := getattr_size c d (a_name a)).
+        remember (getattr ct c d (a_name a)) as u.
+        assert (R : spec_eqb ct n u u = true) by (apply IH; auto; lia).
+        destruct u; simpl; auto. apply Z.eqb_refl.
+  Qed.
+End GetAttr.
+
+(* ================================================================== the model is total on trees *)
+Definition func_of (v : val) : Z := match v with VMeth f _ => f | _ => 0%Z end.
+
+Lemma field_eqb_cases g u v :
+  field_eqb g u v = if is_meth u && is_meth v then Z.eqb (func_of u) (func_of v) else g u v.
+Proof. destruct u, v; reflexivity. Qed.
+
+Section ModelSpec.
+  Variable ct : ctable.
+  Hypothesis CT : wf_ct ct.
+
+  Lemma eq_loop_step fx nef cs ds co dx a t :
+    eq_loop ct fx nef cs ds co dx (a :: t) =
+    if negb (a_compare a) then eq_loop ct fx nef cs ds co dx t
+    else let vs := getattr ct cs ds (a_name a) in
+         let vo := getattr ct co dx (a_name a) in
+         if is_meth vs && is_meth vo
+         then (if fx then if Z.eqb (func_of vs) (func_of vo) then eq_loop ct fx nef cs ds co dx t else Ok false
+               else Ok (Z.eqb (func_of vs) (func_of vo)))
+         else bindr (nef vs vo) (fun ne => if ne then Ok false else eq_loop ct fx nef cs ds co dx t).
+  Proof.
+    simpl. destruct (negb (a_compare a)); auto.
+    destruct (getattr ct cs ds (a_name a)), (getattr ct co dx (a_name a)); reflexivity.
+  Qed.
+
+  Lemma all2M_ok eqf l1 : forall l2,
+    (forall x y, In x l1 -> In y l2 -> exists r, eqf x y = Ok r) ->
+    exists r, all2M eqf l1 l2 = Ok r.
+  Proof.
+    induction l1 as [|x t IH]; intros [|y t2] H; simpl; eauto.
+    destruct (H x y) as [r E]; simpl; auto. rewrite E. simpl. destruct r; eauto.
+    apply IH. intros; apply H; simpl; auto.
+  Qed.
+
+  Lemma dict_sub_ok eqf d1 d2 :
+    (forall k v v2, In (k, v) d1 -> dict_get k d2 = Some v2 -> exists r, eqf v v2 = Ok r) ->
+    exists r, dict_sub eqf d1 d2 = Ok r.
+  Proof.
+    induction d1 as [|[k v] t IH]; intro H; simpl; eauto.
+    destruct (dict_get k d2) as [v2|] eqn:G; eauto.
+    destruct (H k v v2) as [r E]; simpl; auto. rewrite E. simpl. destruct r; eauto.
+    apply IH. intros; eapply H; simpl; eauto.
+  Qed.
+
+  Lemma eq_loop_ok fx nef cs ds co dx attrs :
+    (forall x, exists r, nef (getattr ct cs ds x) (getattr ct co dx x) = Ok r) ->
+    exists r, eq_loop ct fx nef cs ds co dx attrs = Ok r.
+  Proof.
+    intro H. induction attrs as [|a t IH]; [simpl; eauto|].
+    rewrite eq_loop_step. destruct (negb (a_compare a)); auto. cbv zeta.
+    destruct (is_meth _ && is_meth _).
+    - destruct fx; eauto. destruct (Z.eqb _ _); eauto.
+    - destruct (H (a_name a)) as [r E]. rewrite E. simpl. destruct r; eauto.
+  Qed.
+
+  Lemma inst_eq_with_ok fx nef cs ds b :
+    (forall co dx x, b = VInst co dx ->
+                     exists r, nef (getattr ct cs ds x) (getattr ct co dx x) = Ok r) ->
+    exists r, inst_eq_with ct fx nef cs ds b = Ok r.
+  Proof.
+    intro H. unfold inst_eq_with. destruct (isinstance ct b cs); eauto.
+    destruct b; eauto. apply eq_loop_ok. intros; eapply H; eauto.
+  Qed.
+
+  Lemma enough fx n : forall a b, size a + size b < n -> exists r, val_eq ct fx n a b = Ok r.
+  Proof.
+    induction n as [|n IH]; intros a b S; [lia|].
+    assert (NE : forall cs ds co dx x,
+               size (VInst cs ds) + size (VInst co dx) <= size a + size b ->
+               exists r, bindr (val_eq ct fx n (getattr ct cs ds x) (getattr ct co dx x))
+                               (fun r => Ok (negb r)) = Ok r).
+    { intros. assert (A := getattr_size ct CT cs ds x). assert (B := getattr_size ct CT co dx x).
+      destruct (IH (getattr ct cs ds x) (getattr ct co dx x)) as [r E]; [lia|].
+      rewrite E. simpl. eauto. }
+    destruct a, b; simpl; eauto;
+      try (apply inst_eq_with_ok; intros; discriminate).
+    - apply all2M_ok. intros x y Ix Iy. apply IH.
+      apply size_in_tuple in Ix, Iy. lia.
+    - destruct (Nat.eqb _ _); eauto. apply all2M_ok. intros x y Ix Iy. apply IH.
+      apply size_in_list in Ix, Iy. lia.
+    - destruct (Nat.eqb _ _); eauto. apply dict_sub_ok. intros k v v2 I G. apply IH.
+      apply dict_get_in in G as [k2 [I2 _]].
+      apply size_in_dict in I, I2. lia.
+    - destruct (negb (c =? c0) && is_sub ct c0 c).
+      + apply inst_eq_with_ok. intros co dx x E. inversion E; subst. apply NE. lia.
+      + apply inst_eq_with_ok. intros co dx x E. inversion E; subst. apply NE. lia.
+  Qed.
+
+  (* ================================================================ the model computes the specification *)
+  Lemma all2M_spec eqf g l1 : forall l2 r,
+    (forall x y q, In x l1 -> In y l2 -> eqf x y = Ok q -> q = g x y) ->
+    all2M eqf l1 l2 = Ok r -> r = forall2b g l1 l2.
+  Proof.
+    induction l1 as [|x t IH]; intros [|y t2] r H E; simpl in *;
+      try (inversion E; reflexivity).
+    destruct (eqf x y) as [q|] eqn:Q; simpl in E; try discriminate.
+    rewrite <- (H x y q); auto. destruct q; simpl.
+    - apply IH; auto; intros; eapply H; simpl; eauto.
+    - inversion E; reflexivity.
+  Qed.
+
+  Lemma dict_sub_spec eqf g d1 d2 : forall r,
+    (forall k v v2 q, In (k, v) d1 -> dict_get k d2 = Some v2 -> eqf v v2 = Ok q -> q = g v v2) ->
+    dict_sub eqf d1 d2 = Ok r -> r = dict_le g d1 d2.
+  Proof.
+    induction d1 as [|[k v] t IH]; intros r H E; simpl in *; try (inversion E; reflexivity).
+    destruct (dict_get k d2) as [v2|] eqn:G; try (inversion E; reflexivity).
+    destruct (eqf v v2) as [q|] eqn:Q; simpl in E; try discriminate.
+    rewrite <- (H k v v2 q); auto. destruct q; simpl.
+    - apply IH; auto; intros; eapply H; simpl; eauto.
+    - inversion E; reflexivity.
+  Qed.
+
+  Lemma eq_loop_spec nef g cs ds co dx attrs : forall r,
+    (forall x q, nef (getattr ct cs ds x) (getattr ct co dx x) = Ok q ->
+                 q = negb (g (getattr ct cs ds x) (getattr ct co dx x))) ->
+    eq_loop ct true nef cs ds co dx attrs = Ok r ->
+    r = forallb (fun a => negb (a_compare a) ||
+                          field_eqb g (getattr ct cs ds (a_name a)) (getattr ct co dx (a_name a))) attrs.
+  Proof.
+    intros r H. induction attrs as [|a t IH]; intro E; [inversion E; reflexivity|].
+    rewrite eq_loop_step in E. simpl forallb.
+    destruct (negb (a_compare a)); simpl; auto. cbv zeta in E.
+    rewrite field_eqb_cases.
+    destruct (is_meth _ && is_meth _).
+    - destruct (Z.eqb _ _); simpl; auto. inversion E; reflexivity.
+    - destruct (nef _ _) as [q|] eqn:Q; simpl in E; try discriminate.
+      apply H in Q. subst q.
+      destruct (g _ _); simpl in *; auto. inversion E; reflexivity.
+  Qed.
+
+  Lemma is_sub_antisym c c' : c <> c' -> is_sub ct c c' = true -> is_sub ct c' c = false.
+  Proof.
+    intros NE H. unfold is_sub in *.
+    destruct (Nat.eqb_spec c c'); [congruence|]. destruct (Nat.eqb_spec c' c); [congruence|].
+    simpl in *. apply existsb_exists in H as [x [I E]]. apply Nat.eqb_eq in E; subst x.
+    destruct (existsb (Nat.eqb c) (c_anc (ct c'))) eqn:X; auto.
+    apply existsb_exists in X as [x [I2 E2]]. apply Nat.eqb_eq in E2; subst x.
+    destruct (CT c) as [A _]. destruct (CT c') as [B _].
+    apply A in I. apply B in I2. lia.
+  Qed.
+
+  Lemma wf_of_field v : 2 <= kind v -> wf_field v -> wf v.
+  Proof. intros K [H|[H|H]]; auto; destruct v; simpl in *; try discriminate; lia. Qed.
+
+  Lemma wf_dict_keys d : wf (VDict d) -> keys_ok d.
+  Proof.
+    intro W. inversion W; subst. split; auto.
+    rewrite Forall_forall in *. intros kv I. apply H0; auto.
+  Qed.
+
+  Lemma model_spec n : forall a b r,
+    wf_field a -> wf_field b -> val_eq ct true n a b = Ok r -> r = spec_eqb ct n a b.
+  Proof.
+    induction n as [|n IH]; intros a b r Wa Wb E; [discriminate|].
+    assert (NE : forall cs ds co dx x q,
+               wf (VInst cs ds) -> wf (VInst co dx) ->
+               bindr (val_eq ct true n (getattr ct cs ds x) (getattr ct co dx x))
+                     (fun r => Ok (negb r)) = Ok q ->
+               q = negb (spec_eqb ct n (getattr ct cs ds x) (getattr ct co dx x))).
+    { intros cs ds co dx x q W1 W2 Q.
+      destruct (val_eq ct true n _ _) as [q'|] eqn:Q'; simpl in Q; try discriminate.
+      inversion Q; subst. f_equal. apply IH; auto; apply getattr_wf; auto. }
+    destruct a, b; simpl in E |- *;
+      try (inversion E; reflexivity);
+      try (unfold inst_eq_with in E; simpl in E; inversion E; reflexivity).
+    - (* tuples *)
+      apply wf_of_field in Wa, Wb; simpl; try lia. inversion Wa; inversion Wb; subst.
+      rewrite Forall_forall in *.
+      eapply all2M_spec; [|exact E]. intros x y q Ix Iy Q. apply IH; auto; right; right; auto.
+    - (* lists *)
+      apply wf_of_field in Wa, Wb; simpl; try lia. inversion Wa; inversion Wb; subst.
+      rewrite Forall_forall in *.
+      destruct (Nat.eqb_spec (length l) (length l0)) as [L|L].
+      + eapply all2M_spec; [|exact E]. intros x y q Ix Iy Q. apply IH; auto; right; right; auto.
+      + inversion E; subst. destruct (forall2b _ l l0) eqn:F; auto.
+        apply forall2b_length in F. congruence.
+    - (* dicts *)
+      apply wf_of_field in Wa, Wb; simpl; try lia.
+      assert (K1 := wf_dict_keys _ Wa). assert (K2 := wf_dict_keys _ Wb).
+      inversion Wa as [| | | | | | | d1 F1 N1 |]; inversion Wb as [| | | | | | | d2 F2 N2 |]; subst.
+      rewrite Forall_forall in F1, F2.
+      destruct (Nat.eqb_spec (length kvs) (length kvs0)) as [L|L].
+      + assert (R : r = dict_le (spec_eqb ct n) kvs kvs0).
+        { eapply dict_sub_spec; [|exact E]. intros k v v2 q I G Q.
+          apply dict_get_in in G as [k2 [I2 _]].
+          apply IH; auto; right; right.
+          - apply (F1 (k, v)); auto.
+          - apply (F2 (k2, v2)); auto. }
+        subst r. destruct (dict_le (spec_eqb ct n) kvs kvs0) eqn:D; auto. simpl.
+        symmetry. apply dict_le_converse; auto. intros; apply spec_sym.
+      + inversion E; subst.
+        destruct (dict_le (spec_eqb ct n) kvs kvs0) eqn:D1; auto.
+        destruct (dict_le (spec_eqb ct n) kvs0 kvs) eqn:D2; auto.
+        exfalso. apply L. eapply dict_le_both_length; eauto.
+    - (* instances *)
+      apply wf_of_field in Wa, Wb; simpl; try lia.
+      destruct (Nat.eqb_spec c c0) as [EQ|NEQ]; simpl in E.
+      + subst c0. unfold inst_eq_with in E. simpl in E.
+        unfold is_sub in E. rewrite Nat.eqb_refl in E. simpl in E.
+        eapply eq_loop_spec; [|exact E]. intros x q Q. eapply NE; eauto.
+      + destruct (is_sub ct c0 c) eqn:SUB.
+        * unfold inst_eq_with in E. simpl in E.
+          rewrite is_sub_antisym in E; auto. inversion E; reflexivity.
+        * unfold inst_eq_with in E. simpl in E. rewrite SUB in E. inversion E; reflexivity.
+  Qed.
+
+  (* on trees, with enough fuel, == is exactly the specification *)
+  Theorem val_eq_spec n a b :
+    wf_field a -> wf_field b -> size a + size b < n ->
+    val_eq ct true n a b = Ok (spec_eqb ct n a b).
+  Proof.
+    intros Wa Wb S. destruct (enough true n a b S) as [r E].
+    rewrite E. f_equal. apply model_spec; auto.
+  Qed.
+End ModelSpec.
